@@ -4,6 +4,7 @@ import PyTrie.Lemmas.FreeView
 import PyTrie.Lemmas.CacheNoDupPres
 import PyTrie.Lemmas.PruneBodiesV
 import PyTrie.Lemmas.PruneBodiesNP
+import PyTrie.Lemmas.FreeHistory
 /-! # The tree-free executor (C01, C04, C06, C07 over a transcription with no tree)
 
 `Model/HexFree.lean` is `HexaryTrie.set` / `delete` / `get` as the code runs them: the trie is a root hash and a `prune`
@@ -238,5 +239,25 @@ theorem np_complete_after_commit (Hs : Hashing) (blankRootHash : Hash) (base0 : 
     Complete Hs blankRootHash (commitLoop false c base0 none).2.1 { T with prune := false } ∧
     Preserved base0 (commitLoop false c base0 none).2.1 :=
   commit_np_complete Hs blankRootHash base0 T s hinv hcons c hcache hcomp
+
+end PyTrie.Props.Free
+
+/-! ## Whole histories with `squash_changes` blocks
+
+`HStep` = a direct `set` / `delete`, or a block (calls on the batch trie, left normally or by an exception). `runW` runs a
+history in the tree-carrying `World`, `runF` in the tree-free `FWorld`. `Good` is the conjunction, along the run, of the
+run-level premises of every call executed (no hash collision among the data the call touches, the two physical side
+conditions on what it reads, the call returns normally). -/
+namespace PyTrie.Props.Free
+open PyTrie PyTrie.Hex PyTrie.HexW PyTrie.HexFree
+
+/-- **the tree-free world and the tree-carrying world return the same outcome for every call of every history — direct
+    operations, blocks left normally or by an exception, pruning on or off — and end in the same database, root and
+    reference counts** -/
+theorem history_lockstep (H : Bytes → Bytes) (hlen : ∀ b, (H b).length = 32) (prune : Bool) (steps : List HStep)
+    (hgood : Good H (freshW H prune) steps) :
+    (runF H (FWorld.init H prune) steps).1 = (runW H (freshW H prune) steps).1 ∧
+    Sim (runF H (FWorld.init H prune) steps).2 (runW H (freshW H prune) steps).2 :=
+  lockstep_history H hlen prune steps hgood
 
 end PyTrie.Props.Free
